@@ -93,7 +93,7 @@ def psi(j):
 
 
 # ------------------------------------------------------------------------------------------ jax.random
-_orig = dict(split=jax.random.split, uniform=jax.random.uniform, choice=jax.random.choice)
+_orig = dict(split=jax.random.split, uniform=jax.random.uniform, choice=jax.random.choice, permutation=jax.random.permutation)
 SCRIPT = {"perm": None, "uniform": None}     # replay scripts: dict key-bytes -> value
 
 
@@ -165,8 +165,23 @@ def choice(key, a, shape=(), replace=True, p=None, axis=0):
     return a[idx]
 
 
+def permutation(key, x, axis=0, independent=False):
+    """contract of jax.random.permutation along axis 0: x[pi] for an arbitrary permutation pi; with independent=True
+    every column (index along the other axes) gets its OWN arbitrary permutation"""
+    x = jnp.arange(x) if isinstance(x, int) else jnp.asarray(x)
+    if axis != 0:
+        raise NotImplementedError("random.permutation stub covers axis=0 only")
+    n = x.shape[0]
+    if not independent or x.ndim == 1:
+        return x[permnp_p.bind(key, n=n)]
+    cols = x.reshape(n, -1)
+    keys = split(key, cols.shape[1])
+    out = jnp.stack([cols[:, j][permnp_p.bind(keys[j], n=n)] for j in range(cols.shape[1])], axis=1)
+    return out.reshape(x.shape)
+
+
 def install():
-    jax.random.split = split; jax.random.uniform = uniform; jax.random.choice = choice
+    jax.random.split = split; jax.random.uniform = uniform; jax.random.choice = choice; jax.random.permutation = permutation
 
 
 def uninstall():
